@@ -177,3 +177,51 @@ Proof.
   - intros [x [Hx E]]. apply move_eqb_eq in E. subst. exact Hx.
   - intros H. exists m. split; [exact H|apply move_eqb_eq; reflexivity].
 Qed.
+
+(* captures are exactly the capturing types, non-captures exactly the others *)
+Lemma king_captures_cap p m : In m (king_captures p) -> is_capturing m = true.
+Proof. unfold king_captures. intros H. crush_in H. reflexivity. Qed.
+Lemma pawn_captures_cap p us ksq occ al pr pa pb ep_bb e m :
+  In m (pawn_captures p us ksq occ al pr pa pb ep_bb e) -> is_capturing m = true.
+Proof.
+  unfold pawn_captures, promo_caps. intros H. destruct us;
+    repeat (apply in_app_or in H; destruct H as [H|H]; [crush_in H; reflexivity|]);
+    (destruct (bb_nonempty ep_bb && e); [|destruct H]);
+    apply in_app_or in H; destruct H as [H|H]; apply ep_try_ok in H; unfold is_capturing; rewrite H; reflexivity.
+Qed.
+Lemma piece_captures_cap p us al pin pb pr bx rx occ m :
+  In m (piece_captures p us al pin pb pr bx rx occ) -> is_capturing m = true.
+Proof.
+  unfold piece_captures. intros H.
+  repeat (apply in_app_or in H; destruct H as [H|H]; [apply in_emit in H; destruct H as [fr [_ H]]; apply caps_from_ok in H; unfold is_capturing; rewrite H; reflexivity|]).
+  apply in_emit in H; destruct H as [fr [_ H]]; apply caps_from_ok in H; unfold is_capturing; rewrite H; reflexivity.
+Qed.
+Theorem legal_captures_capturing p m : In m (legal_captures p) -> is_capturing m = true.
+Proof.
+  unfold legal_captures, legal_captures_gen. intros H. cbv zeta in H.
+  destruct (1 <? bb_count (checkers p)); [apply (king_captures_cap p); exact H|].
+  apply in_app_or in H. destruct H as [H|H]; [apply pawn_captures_cap in H; exact H|].
+  apply in_app_or in H. destruct H as [H|H]; [apply piece_captures_cap in H; exact H|].
+  apply (king_captures_cap p); exact H.
+Qed.
+
+Lemma pawn_pushes_quiet us pawns al emp m : In m (pawn_pushes us pawns al emp) -> is_capturing m = false.
+Proof. unfold pawn_pushes, promos. intros H. destruct us; crush_in H; reflexivity. Qed.
+Lemma piece_quiets_quiet p us np al occ m : In m (piece_quiets p us np al occ) -> is_capturing m = false.
+Proof.
+  unfold piece_quiets. intros H.
+  repeat (apply in_app_or in H; destruct H as [H|H]; [apply in_emit in H; destruct H as [fr [_ H]]; apply normals_from_ok in H; unfold is_capturing; rewrite H; reflexivity|]).
+  apply in_emit in H; destruct H as [fr [_ H]]; apply normals_from_ok in H; unfold is_capturing; rewrite H; reflexivity.
+Qed.
+Theorem legal_noncaptures_quiet p m : In m (legal_noncaptures p) -> is_capturing m = false.
+Proof.
+  unfold legal_noncaptures. intros H. cbv zeta in H.
+  destruct (1 <? bb_count (checkers p)).
+  - crush_in H. reflexivity.
+  - apply in_app_or in H. destruct H as [H|H]; [apply pin_scan_normal in H; unfold is_capturing; rewrite H; reflexivity|].
+    apply in_app_or in H. destruct H as [H|H]; [apply pin_scan_normal in H; unfold is_capturing; rewrite H; reflexivity|].
+    apply in_app_or in H. destruct H as [H|H]; [apply pawn_pushes_quiet in H; exact H|].
+    apply in_app_or in H. destruct H as [H|H]; [apply piece_quiets_quiet in H; exact H|].
+    apply in_app_or in H. destruct H as [H|H]; [unfold king_quiets in H; apply normals_from_ok in H; unfold is_capturing; rewrite H; reflexivity|].
+    unfold castles in H. destruct (turn p); apply in_app_or in H; destruct H as [H|H]; apply castle_try_ok in H; destruct H as (E1 & _); unfold is_capturing; rewrite E1; reflexivity.
+Qed.
